@@ -133,6 +133,15 @@ func execAlias(in []string) string {
 	default:
 		return "harness-error:bad-op"
 	}
+	// the caller's storage as another goroutine would see it while the request
+	// is on the wire (the call has not returned yet)
+	before := after()
+	mid := ""
+	c.OnWrite = func(*sconn.Conn, []byte) {
+		if m := after(); m != before && mid == "" {
+			mid = "during-call:" + m
+		}
+	}
 	r1 := errStr(call())
 	w1 := c.WriteLog()
 	r2 := errStr(call())
@@ -142,7 +151,11 @@ func execAlias(in []string) string {
 	if sameFrames(fr, w1, w2) {
 		same = "1"
 	}
-	return after() + " " + same + " " + writesStr(w1) + " " + r1 + " " + r2
+	final := after()
+	if mid != "" {
+		final = mid
+	}
+	return final + " " + same + " " + writesStr(w1) + " " + r1 + " " + r2
 }
 
 // one kept result: how to print its current content (whole capacity)
